@@ -782,18 +782,18 @@ class PDFPageInterpreter:
             n = 1
 
         if n == 1:
-            gray = self.pop(1)[0]
-            gray_f = safe_float(gray)
+            values = self.pop(1)
+            gray_f = safe_float(values[0]) if len(values) == 1 else None
             if gray_f is None:
                 log.warning(
-                    f"Cannot set gray stroke color because {gray!r} is an invalid float value"
+                    f"Cannot set gray stroke color because {values!r} is an invalid float value"
                 )
             else:
                 self.graphicstate.scolor = gray_f
 
         elif n == 3:
             values = self.pop(3)
-            rgb = safe_rgb(*values)
+            rgb = safe_rgb(*values) if len(values) == 3 else None
             if rgb is None:
                 log.warning(
                     f"Cannot set RGB stroke color because not all values in {values!r} can be parsed as floats"
@@ -803,7 +803,7 @@ class PDFPageInterpreter:
 
         elif n == 4:
             values = self.pop(4)
-            cmyk = safe_cmyk(*values)
+            cmyk = safe_cmyk(*values) if len(values) == 4 else None
 
             if cmyk is None:
                 log.warning(
@@ -827,18 +827,18 @@ class PDFPageInterpreter:
             n = 1
 
         if n == 1:
-            gray = self.pop(1)[0]
-            gray_f = safe_float(gray)
+            values = self.pop(1)
+            gray_f = safe_float(values[0]) if len(values) == 1 else None
             if gray_f is None:
                 log.warning(
-                    f"Cannot set gray non-stroke color because {gray!r} is an invalid float value"
+                    f"Cannot set gray non-stroke color because {values!r} is an invalid float value"
                 )
             else:
                 self.graphicstate.ncolor = gray_f
 
         elif n == 3:
             values = self.pop(3)
-            rgb = safe_rgb(*values)
+            rgb = safe_rgb(*values) if len(values) == 3 else None
 
             if rgb is None:
                 log.warning(
@@ -849,7 +849,7 @@ class PDFPageInterpreter:
 
         elif n == 4:
             values = self.pop(4)
-            cmyk = safe_cmyk(*values)
+            cmyk = safe_cmyk(*values) if len(values) == 4 else None
 
             if cmyk is None:
                 log.warning(
